@@ -122,6 +122,16 @@ func CheckC18(e *fw.Env, l *Lab) {
 		checkParamsVisible(e, w, l.Base, 0, "default genesis")
 		probePassthrough(e, l, l.Base, 0, "default genesis")
 	}
+	// a store in which the parameter item was never written (a module added without running its
+	// genesis): not reachable through genesis or messages, checked because the statement defines
+	// the behaviour ("missing parameters mean limit 0"): only the empty passthrough passes
+	if e.Shard == 1%e.Shards {
+		ctx, _ := l.Base.CacheContext()
+		st := ctx.KVStore(orbiterStoreKey(w))
+		st.Delete([]byte{40})
+		probePassthrough(e, l, ctx, 0, "parameter item deleted from the store")
+		e.Res.Sig("missing-params")
+	}
 	walks := e.N(60, 3000)
 	for wk := 0; wk < walks; wk++ {
 		ctx, _ := l.Base.CacheContext()
